@@ -533,8 +533,47 @@ def check_coercion(ctx, rep, rule: str, modules):
             key = ast.unparse(a)
             guarded = False
             int_typed = False  # the guard itself says the value is an integer type: int() cannot truncate
+            # the isinstance calls known to be TRUE at the coercion: positive conjuncts of the tests whose taken
+            # branch encloses it, and of the negation of tests that are false here (else branch, or an earlier
+            # `if T: return ..`)
+            from .wave3 import _enclosing_ifs
+            lex = {id(t): taken for t, taken in _enclosing_ifs(f.node, c)}
+
+            def _true_calls(e, sense, out):
+                if isinstance(e, ast.UnaryOp) and isinstance(e.op, ast.Not):
+                    _true_calls(e.operand, not sense, out)
+                elif isinstance(e, ast.BoolOp) and isinstance(e.op, ast.And) and sense:
+                    for v in e.values:
+                        _true_calls(v, True, out)
+                elif isinstance(e, ast.BoolOp) and isinstance(e.op, ast.Or) and not sense:
+                    for v in e.values:
+                        _true_calls(v, False, out)
+                elif isinstance(e, ast.Call) and sense:
+                    out.append(e)
+
+            def _terminates(body):
+                return bool(body) and isinstance(body[-1], (ast.Return, ast.Raise, ast.Continue, ast.Break))
+
+            known_true = []
             for t in tests:
-                for m in ast.walk(t):
+                par_t = fl.parent.get(id(t))
+                if isinstance(par_t, (ast.If, ast.While)) and par_t.test is t:
+                    if id(t) in lex:
+                        senses = [lex[id(t)]]
+                    elif isinstance(par_t, ast.If) and _terminates(par_t.body) and not _terminates(par_t.orelse):
+                        senses = [False]          # an earlier `if T: return ..`: T is false from here on
+                    elif isinstance(par_t, ast.If) and _terminates(par_t.orelse) and not _terminates(par_t.body):
+                        senses = [True]
+                    else:
+                        senses = [True, False]    # not understood: lenient
+                elif isinstance(par_t, ast.IfExp) and par_t.test is t:
+                    senses = [any(x is c for x in ast.walk(par_t.body))]
+                else:
+                    senses = [True]               # an operand to the left in an enclosing `and`
+                for sense in senses:
+                    _true_calls(t, sense, known_true)
+            for _once in (0,):
+                for m in (known_true):
                     if isinstance(m, ast.Call) and isinstance(m.func, ast.Name) and m.func.id == "isinstance" and len(m.args) == 2 and ast.unparse(m.args[0]) == key:
                         ts = m.args[1].elts if isinstance(m.args[1], ast.Tuple) else [m.args[1]]
                         names = {ast.unparse(x).split(".")[-1] for x in ts}
